@@ -98,6 +98,6 @@ func (s *scriptSource) next() uint64 {
 	z = (z ^ (z >> 27)) * 0x94d049bb133111eb
 	return z ^ (z >> 31)
 }
-func (s *scriptSource) Int63() int64   { return int64(s.next() >> 1) }
-func (s *scriptSource) Uint64() uint64 { return s.next() }
+func (s *scriptSource) Int63() int64    { return int64(s.next() >> 1) }
+func (s *scriptSource) Uint64() uint64  { return s.next() }
 func (s *scriptSource) Seed(seed int64) { s.state = uint64(seed) }
